@@ -94,7 +94,9 @@ type Key struct {
 	Bytes  []byte               // exported public key bytes
 	Pub    *cryptoapi.PublicKey // ECDH types
 	DidKey string
-	w      *World
+	// Born is the epoch from which the party's DID document lists this key (the key itself is in the KMS from the start)
+	Born int
+	w    *World
 }
 
 // KeyDID is the DID of the document that holds this single key agreement key (id <did>#key-1).  The DIDs are of
@@ -167,6 +169,10 @@ func (w *World) PartyDoc(p int) []DocEntry {
 	es = append(es, DocEntry{Frag: strings.Repeat("alt-", len(ks)) + "key-1", Type: "X25519KeyAgreementKey2020"})
 
 	for j, k := range ks {
+		if k.Born > w.Epoch {
+			continue // not yet published in the document (fragments of the other entries do not depend on it)
+		}
+
 		typ := "JsonWebKey2020"
 		if k.KT == X25519 {
 			typ = "X25519KeyAgreementKey2019"
@@ -201,6 +207,7 @@ type Party struct {
 	Crypto *tinkcrypto.Crypto
 	w      *World
 	pk     map[string]*packager.Packager
+	pp     map[string]packer.Packer
 }
 
 // World is the set of parties and the public directory.
@@ -208,7 +215,9 @@ type World struct {
 	Parties []*Party
 	Keys    []*Key
 	byRef   map[string]*Key
-	VDR     *mockvdr.MockVDRegistry
+	// Epoch is the current time of the public directory: DID documents evolve (a party's document gains keys)
+	Epoch int
+	VDR   *mockvdr.MockVDRegistry
 }
 
 // NewWorld creates n parties.
@@ -240,7 +249,7 @@ func (w *World) AddParty() *Party {
 		panic(err)
 	}
 
-	pa := &Party{ID: len(w.Parties), KMS: k, Crypto: c, w: w, pk: map[string]*packager.Packager{}}
+	pa := &Party{ID: len(w.Parties), KMS: k, Crypto: c, w: w, pk: map[string]*packager.Packager{}, pp: map[string]packer.Packer{}}
 	w.Parties = append(w.Parties, pa)
 
 	return pa
@@ -388,6 +397,26 @@ func (p *Party) provider() *mockprovider.Provider {
 
 // Packer returns the party's packer of the kind ("jwe-auth", "jwe-anon", "leg-auth", "leg-anon").
 func (p *Party) Packer(kind, enc string) (packer.Packer, error) {
+	// packers are long-lived like the packagers (an agent keeps its instances): created once per (kind, enc)
+	if pp, ok := p.pp[kind+"/"+enc]; ok {
+		return pp, nil
+	}
+
+	pp, err := p.newPacker(kind, enc)
+	if err == nil {
+		p.pp[kind+"/"+enc] = pp
+	}
+
+	return pp, err
+}
+
+// ResetInstances drops the party's long-lived packagers and packers (an agent restart).
+func (p *Party) ResetInstances() {
+	p.pk = map[string]*packager.Packager{}
+	p.pp = map[string]packer.Packer{}
+}
+
+func (p *Party) newPacker(kind, enc string) (packer.Packer, error) {
 	switch kind {
 	case "jwe-auth":
 		return authcrypt.New(p.provider(), EncAlg(enc))
@@ -414,7 +443,7 @@ func (p *Party) Packager(enc string) (*packager.Packager, error) {
 	var list []packer.Packer
 
 	for _, kind := range []string{"jwe-auth", "jwe-anon", "leg-auth", "leg-anon"} {
-		pp, err := p.Packer(kind, enc)
+		pp, err := p.newPacker(kind, enc)
 		if err != nil {
 			if kind == "jwe-auth" {
 				continue // anoncrypt-only packager (A256GCM)
